@@ -171,11 +171,26 @@ class RefSim(object):
             self._sens = (outs, spec, pars)
             for o in outs:
                 self._c.locate(o)
+        # forward state sensitivities (myokit: _s_state / _s_default_state): they PERSIST from one run to the next, as the
+        # state does; reset() restores the defaults, set_state() and set_time() do not touch them
+        self._s_default = self._default_s_state()
+        self._s_state = [list(r) for r in self._s_default] if self._s_default is not None else None
         emit('NewSim', sid=self._sid, states=list(self._c.states), pace_bound=self._c.pace_var is not None,
              sens_outputs=(list(self._sens[0]) if self._sens else None),
              sens_params=(list(self._sens[2]) if self._sens else None),
              protocol=protocol_events(self._protocol), fingerprint=hash(self._model.code()) % (10 ** 9),
              struct=struct_of_model(self._model))
+
+    def _default_s_state(self):
+        if self._sens is None:
+            return None
+        rows = []
+        for kind, ref in self._sens[1]:
+            row = [0.0] * len(self._c.states)
+            if kind == 'init':
+                row[ref] = 1.0
+            rows.append(row)
+        return rows
 
     def __deepcopy__(self, memo):
         """A deep copy is a new solver object holding the same protocol (as pickling a myokit.Simulation)."""
@@ -189,6 +204,8 @@ class RefSim(object):
         new._state = list(self._state)
         new._time = self._time
         new._sens = self._sens
+        new._s_default = [list(r) for r in self._s_default] if self._s_default is not None else None
+        new._s_state = [list(r) for r in self._s_state] if self._s_state is not None else None
         memo[id(self)] = new
         emit('NewSim', sid=new._sid, states=list(new._c.states), pace_bound=new._c.pace_var is not None,
              sens_outputs=(list(new._sens[0]) if new._sens else None),
@@ -201,7 +218,13 @@ class RefSim(object):
     def reset(self):
         self._time = 0.0
         self._state = list(self._default_state)
+        if self._s_default is not None:
+            self._s_state = [list(r) for r in self._s_default]
         emit('Reset', sid=self._sid)
+
+    def set_time(self, time=0):
+        self._time = float(time)
+        emit('SetTime', sid=self._sid, time=float(time))
 
     def set_state(self, state):
         state = [float(x) for x in state]
@@ -251,10 +274,7 @@ class RefSim(object):
         npar = len(sens[1]) if sens else 0
         y = np.array(self._state, dtype=float)
         if sens:
-            S = np.zeros((npar, ns))
-            for k, (kind, ref) in enumerate(sens[1]):
-                if kind == 'init':
-                    S[k, ref] = 1.0
+            S = np.array(self._s_state, dtype=float).reshape(npar, ns)       # (where the previous run left them)
             y = np.concatenate([y, S.flatten()])
             dc = []
             for kind, ref in sens[1]:
@@ -333,6 +353,8 @@ class RefSim(object):
                 pacing.advance(t)
         self._time = t_end
         self._state = [float(v) for v in y[:ns]]
+        if sens:
+            self._s_state = [[float(np.real(v)) for v in y[ns + k * ns: ns + (k + 1) * ns]] for k in range(npar)]
         out = {n: np.array(v) for n, v in logs.items()}
         if not all(np.all(np.isfinite(v)) for v in out.values()):
             raise myokit.SimulationError('RefSim: non-finite solution')
